@@ -82,6 +82,9 @@ class Ctx:
     # ---- verdict -------------------------------------------------------------------------
     def finish(self):
         self.coverage["distinct_nontrivial"] = len(self._distinct)
+        if not isinstance(self.coverage.get("exhaustive", False), bool):     # schema: boolean; details go elsewhere
+            self.coverage["exhaustive_families"] = self.coverage["exhaustive"]
+            self.coverage["exhaustive"] = False
         known = findings.open_keys(self.pid)
         lines, rc = [], 0
         replay_dir = os.path.join(repoenv.VERIF, "replay")
@@ -126,7 +129,10 @@ class Ctx:
         ev = {"property_id": self.pid, "tier": self.tier, "seed": self.seed, "level": LEVEL,
               "coverage": self.coverage, "assumptions": self.assumptions,
               "wall_s": round(time.time() - self.t0, 2), "violations": len(new_viol) + (1 if (self.broken and not new_viol) else 0)}
-        ev["coverage"].update(self.extra)
+        reserved = {"evaluations", "distinct_nontrivial", "rule", "samples", "states", "transitions", "traces_validated_against_impl",
+                    "obligations", "discharged", "checker_cmd", "trusted_base", "programs", "disagreements_checked", "explanation",
+                    "exhaustive"}
+        ev["coverage"].update({(k + "_detail" if k in reserved else k): v for k, v in self.extra.items()})
         ev["coverage"]["known_findings_seen"] = sorted(seen_known)
         os.makedirs(os.path.join(repoenv.VERIF, "evidence"), exist_ok=True)
         with open(os.path.join(repoenv.VERIF, "evidence", "%s.json" % self.pid), "w") as f:
